@@ -25,6 +25,7 @@ type Prog struct {
 	Fset   *token.FileSet
 	Pkgs   []*packages.Package // root packages (module packages)
 	ByPath map[string]*packages.Package
+	All    map[string]*packages.Package // every loaded package, dependencies included
 	CgoOn  bool
 
 	funcs map[*types.Func]*FuncInfo
@@ -60,6 +61,8 @@ func loadProg(repo string, cgo bool) (*Prog, error) {
 	}
 	p := &Prog{Repo: repo, Fset: cfg.Fset, ByPath: map[string]*packages.Package{}, CgoOn: cgo,
 		funcs: map[*types.Func]*FuncInfo{}, byKey: map[string]*FuncInfo{}}
+	p.All = map[string]*packages.Package{}
+	packages.Visit(pkgs, nil, func(pkg *packages.Package) { p.All[pkg.PkgPath] = pkg })
 	var errs []string
 	for _, pkg := range pkgs {
 		for _, e := range pkg.Errors {
@@ -106,6 +109,10 @@ func funcKey(f *types.Func) string {
 	pkg := ""
 	if f.Pkg() != nil {
 		pkg = f.Pkg().Name()
+		if pkg == "main" && f.Pkg().Path() != modPath {
+			// helper binaries are also "package main": keep keys unique
+			pkg = "main/" + f.Pkg().Path()[strings.LastIndex(f.Pkg().Path(), "/")+1:]
+		}
 	}
 	sig, _ := f.Type().(*types.Signature)
 	if sig != nil && sig.Recv() != nil {
